@@ -245,6 +245,39 @@ def sampler_job(interp, c, case):
             "sample_discrete returns j with sum_{i<j} a_i < u*Lambda <= sum_{i<=j} a_i (so P(j) = a_j/Lambda)")
 
 
+def sum_job(interp, c, case):
+    """the total propensity of networks far larger than the loop jobs' bound: array_sum over n symbolic numbers, and the selection among
+    them, are what the loops' Lambda and reaction choice are for any number of reactions"""
+    n, = case
+    install_uniform(interp)
+    rnd = interp.load("bioscrape.random")
+    a = sym_array(c, "a", n, "real", lo=0) if n else np.zeros(0, dtype=object)
+    tot = 0
+    for v in a:
+        tot = tot + v
+    ok = c.prove(rnd.ns["array_sum"](ptr(interp, a), n) == tot, "array_sum over %d numbers is their sum" % n,
+                 info={"sig": "array_sum", "what": "array_sum over %d numbers is their sum" % n})
+    if ok is False:
+        c.failures[-1]["replay"] = {"kind": "array_sum", "n": n}
+    if n and n <= 10:
+        c.assume(tot > 0)
+        c.draws.clear()
+        j = rnd.ns["sample_discrete"](n, ptr(interp, a), tot)
+        q = c.draws[0] * tot
+        cum = 0
+        for i in range(n):
+            cum = cum + a[i]
+            c.assume(s_not(q == cum))
+        lo = 0
+        for i in range(j):
+            lo = lo + a[i]
+        ok = c.prove(s_and(0 <= j, j < n, lo < q, q <= lo + a[j], a[j] > 0, len(c.draws) == 1),
+                     "sample_discrete among %d weights returns j with sum_{i<j} a_i < u*Lambda <= sum_{i<=j} a_i" % n,
+                     info={"sig": "sample_discrete wide", "what": "sample_discrete among %d weights" % n})
+        if ok is False:
+            c.failures[-1]["replay"] = {"kind": "array_sum", "n": n}
+
+
 def cases(tier):
     sizes = [(1, 1, 2), (2, 2, 2), (2, 2, 3)] if tier == "quick" else \
         [(1, 1, 2), (2, 2, 2), (2, 2, 3), (3, 3, 3), (2, 3, 4), (3, 2, 4)]
@@ -261,6 +294,8 @@ def check(tier):
     for i, cse in enumerate(cs):
         ck.add("step/S%dR%dT%d/ci%d" % cse, "harness.C05", "step_job", dict(cases=[cse]))
     ck.add("samplers", "harness.C05", "sampler_job", dict(cases=[(1,), (2,), (3,)] + ([(4,)] if tier == "thorough" else [])))
+    wide = [0, 1, 5, 8, 9, 10, 11, 16, 17, 18, 19, 24, 33] if tier == "quick" else list(range(0, 41)) + [64, 65, 100, 129]
+    ck.add("total-propensity-wide", "harness.C05", "sum_job", dict(cases=[(n,) for n in wide]))
     # "initial counts": a simulation through an interface starts from the model's CURRENT initial condition
     ck.add("initial-condition-followed", "harness.C08", "follow_job",
            dict(cases=[("species", r_, s_) for r_ in (False, True) for s_ in (False, True)]), fresh=True)
